@@ -13,8 +13,7 @@ from vlib.common import LEAN, REPO, CheckError
 
 AREA = "archive"
 GEN = os.path.join(LEAN, "MorfuseModel", "Gen", "ArchiveTable.lean")
-ASAN_EXTRA = {"ASAN_OPTIONS": "detect_leaks=0:abort_on_error=0:exitcode=99:allocator_may_return_null=1:"
-                              "max_allocation_size_mb=256"}
+ASAN_EXTRA = {}
 
 PRIMS = ["i8", "i16", "i32", "i64", "u8", "u16", "u32", "u64", "chr", "size", "byte", "f32", "f64", "bool", "pos"]
 WIDTH = {"i8": 1, "i16": 2, "i32": 4, "i64": 8, "u8": 1, "u16": 2, "u32": 4, "u64": 8, "chr": 1, "size": 8,
